@@ -112,6 +112,10 @@ func ScanLine(s string) Line {
 	return l
 }
 
+// individual and family record lines carry no value, neither their own nor
+// continuation text
+func isRecord(tag string) bool { return tag == "INDI" || tag == "FAM" }
+
 type Options struct {
 	AllowMultiLine      bool
 	AllowInvalidIndents bool
@@ -178,12 +182,13 @@ func Decode(data string, o Options) *Result {
 	var stack []*Node
 	var prev *Node
 	nonBlank := 0
+	seenFam := false
 	unmodelled := false
 	pieces := SplitLines(data)
 	for pi, raw := range pieces {
 		if raw == "" {
 			r.Blank++
-			if o.AllowMultiLine && prev != nil {
+			if o.AllowMultiLine && prev != nil && !isRecord(prev.Tag) {
 				prev.Value += "\n"
 			}
 			continue
@@ -199,7 +204,9 @@ func Decode(data string, o Options) *Result {
 		}
 		if l.Class == LineUnparsable {
 			if o.AllowMultiLine && prev != nil {
-				prev.Value += "\n" + raw
+				if !isRecord(prev.Tag) {
+					prev.Value += "\n" + raw
+				}
 				r.Continuations++
 				continue
 			}
@@ -214,6 +221,15 @@ func Decode(data string, o Options) *Result {
 		n := &Node{Level: l.Level, Tag: l.Tag, Value: l.Value, Pointer: l.Pointer, Line: nonBlank}
 		if l.Tag == "INDI" || l.Tag == "FAM" {
 			n.Value = "" // individual and family record lines carry no value
+		}
+		if l.Tag == "FAM" {
+			seenFam = true
+		}
+		if (l.Tag == "HUSB" || l.Tag == "WIFE" || l.Tag == "CHIL") && !seenFam {
+			// a family-role line with no family before it: the property's grammar
+			// only has role lines inside or after families
+			r.Outcome = OutUnmodelled
+			return r
 		}
 		level := l.Level
 		if level == 0 {
